@@ -175,7 +175,8 @@ def check_cli(ctx: Ctx) -> None:
             changed.pop("_bind", None), changed.pop("_insecure_bind", None), changed.pop("_quic_bind", None), changed.pop("_root_path", None)
             changed.pop("application_path", None)
             ok = all(changed.get(a) == w for a, w in want.items()) and set(changed) <= set(want)
-            if not ok:
+            alias_pair = len({PY_SPEC[d] for d, _ in given}) < len(given)   # two spellings of one setting: order is unspecified
+            if not ok and not alias_pair:
                 ctx.violation("cli_sets_exactly", case, {"changed": changed, "want": want},
                               {"family": "cli", "dests": dests if len(dests) == 1 else "pair"})
             reqs.append({"cmd": "c19.cli", "app": "app:app", "given": [[d, repr(v)] for d, v in given]})
@@ -204,8 +205,8 @@ def check_cli(ctx: Ctx) -> None:
                 continue
             # replay the model's assignments on the public attribute view and compare with what main() produced
             eff: Dict[str, Optional[str]] = {}
-            for attr, val in asg:
-                eff[attr] = val
+            for attr, val in asg:          # in execution order: a later assignment to the same setting wins
+                eff["verify_mode" if attr == "cert_reqs" else attr] = val
             bad = []
             for attr, val in eff.items():
                 if attr == "application_path":
@@ -313,9 +314,10 @@ def check_loaders(ctx: Ctx) -> None:
                 obj = type("O", (), {})()
                 setattr(obj, key, v)
                 results["object"] = Config.from_object(obj)
-                modname = f"c19mod{n}"
+                modname = f"c19mod_{os.getpid()}_{id(ctx) % 100000}_{ctx.evaluations}_{n}"
                 (tmp / f"{modname}.py").write_text(f"import os\n{key} = {_py_literal(v)}\n__dunder_x__ = 1\n")
                 results["module"] = Config.from_object(modname)
+                sys.modules.pop(modname, None)
                 (tmp / f"cfg{n}.py").write_text(f"import sys\n{key} = {_py_literal(v)}\n")
                 results["pyfile"] = Config.from_pyfile(str(tmp / f"cfg{n}.py"))
                 toml_ok = not isinstance(v, dict)
